@@ -3906,6 +3906,7 @@ class Shape(SVGElement, GraphicObject, Transformable):
             for seg in self.segments(transformed=transformed)
             if not isinstance(Close, Move)
         ]
+        bbs = [bb for bb in bbs if bb is not None]
 
         try:
             xmins, ymins, xmaxs, ymaxs = list(zip(*bbs))
@@ -4141,6 +4142,8 @@ class PathSegment:
         """
         xs = [p.x for p in self if p is not None]
         ys = [p.y for p in self if p is not None]
+        if len(xs) == 0:
+            return None  # No points, so no bounding box.
         xmin = min(xs)
         xmax = max(xs)
         ymin = min(ys)
@@ -7749,6 +7752,7 @@ class Subpath:
 
         segments = self._path._segments[self._start : self._end + 1]
         bbs = [seg.bbox() for seg in segments if not isinstance(Close, Move)]
+        bbs = [bb for bb in bbs if bb is not None]
         try:
             xmins, ymins, xmaxs, ymaxs = list(zip(*bbs))
         except ValueError:
